@@ -146,7 +146,6 @@ theorem C16_member (cfg : Config) (pop : List FileRec) (t : Nat) (filters : Opti
 `t` (population well placed, so that `find` misses none — C01). -/
 theorem C16_covering (cfg : Config) (pop : List FileRec) (t : Nat) (filters : Option Filters)
     (exact : Option FileRec) (f : FileRec) (q : Query) (ht : t < maxT)
-    (_hsup : layoutSupported [] cfg.layout = true)
     (hwp : ∀ f ∈ pop, wellPlaced cfg f = true)
     (hex : ExactOK pop t exact) (hq : window cfg t filters = .ok q)
     (h : findClosest cfg pop t filters exact = .ok f)
@@ -177,7 +176,6 @@ theorem C16_covering (cfg : Config) (pop : List FileRec) (t : Nat) (filters : Op
 belongs to the neighbourhood and minimises `min(|t0 - t|, |t1 - t|)` over it. -/
 theorem C16_nearest (cfg : Config) (pop : List FileRec) (t : Nat) (filters : Option Filters)
     (exact : Option FileRec) (f : FileRec) (q : Query) (ht : t < maxT)
-    (_hsup : layoutSupported [] cfg.layout = true)
     (hwp : ∀ f ∈ pop, wellPlaced cfg f = true)
     (hex : ExactOK pop t exact) (hq : window cfg t filters = .ok q)
     (h : findClosest cfg pop t filters exact = .ok f)
@@ -244,8 +242,11 @@ theorem C16_none (cfg : Config) (pop : List FileRec) (t : Nat) (filters : Option
         exact hnone g hsel.1 hsel.2
 
 /-- **C16_single_file**: a single-file fileset answers with its one file for every
-timestamp (and raises `ValueError` when the path is not an existing file). -/
-theorem C16_single_file : closestSingle true = .ok () ∧ closestSingle false = .error .valueError :=
+timestamp and every filter argument whenever that file exists (and raises `ValueError`
+when its path is not an existing file). -/
+theorem C16_single_file {α : Type} (file : α) (t : Nat) (filters : Option Filters) :
+    closestSingle true file t filters = .ok file ∧
+    closestSingle false file t filters = .error .valueError :=
   ⟨rfl, rfl⟩
 
 /-! ### non-vacuity: daily directories, files 06:00–07:00 on 11, 12 and 15 January 2018 -/
